@@ -108,6 +108,59 @@ theorem trueDisjoint_gc {pools : List Pool} (h : TrueDisjoint pools) : TrueDisjo
   List.Pairwise.filter _ h
 
 
+/-! ### small facts about the per-pool functions -/
+
+theorem applyVerdict_cidr (p : Pool) (v : Verdict) : (applyVerdict p v).cidr = p.cidr := by cases v <;> rfl
+theorem applyVerdict_name (p : Pool) (v : Verdict) : (applyVerdict p v).name = p.name := by cases v <;> rfl
+theorem applyVerdict_deleting (p : Pool) (v : Verdict) : (applyVerdict p v).deleting = p.deleting := by cases v <;> rfl
+theorem applyVerdict_fin (p : Pool) (v : Verdict) : (applyVerdict p v).fin = p.fin := by cases v <;> rfl
+
+theorem applyVerdict_allocTrue (p : Pool) (v : Verdict) :
+    (applyVerdict p v).allocTrue = true ↔ v = .active ∨ (v = .skipped ∧ p.allocTrue = true) := by
+  cases v <;> simp [applyVerdict, Pool.allocTrue]
+
+theorem reconcileFinalizer_keeps (b : List (Bool × Pfx)) (p : Pool) :
+    (reconcileFinalizer b p).cidr = p.cidr ∧ (reconcileFinalizer b p).cond = p.cond ∧
+    (reconcileFinalizer b p).name = p.name ∧ (reconcileFinalizer b p).deleting = p.deleting := by
+  unfold reconcileFinalizer
+  split
+  · split <;> simp
+  · split
+    · simp
+    · split
+      · simp
+      · split <;> simp
+
+theorem overlapP_congr {a a' b b' : Pool} (h1 : a'.cidr = a.cidr) (h2 : b'.cidr = b.cidr) :
+    overlapP a' b' = overlapP a b := by unfold overlapP; rw [h1, h2]
+
+/-- **(1) No two allocatable pools overlap.**  After a reconcile of ANY configuration, any
+two pools whose `Allocatable` condition is True have disjoint CIDRs. -/
+theorem active_pairwise_disjoint_TD (pools : List Pool) (hw : ∀ p ∈ pools, p.WF) (blocks : List (Bool × Pfx)) :
+    TrueDisjoint (reconcile blocks pools) := by
+  unfold TrueDisjoint TD reconcile gc reconcileConditions
+  refine List.Pairwise.sublist List.filter_sublist ?_
+  rw [List.pairwise_map, List.pairwise_map]
+  have hpw := loopSpec_pairwise (sortPools pools) []
+  rw [← verdicts_eq_spec hw] at hpw
+  refine List.Pairwise.imp_of_mem ?_ hpw
+  intro a b ha hb hR hta htb
+  have ka := reconcileFinalizer_keeps blocks (applyVerdict a.1 a.2)
+  have kb := reconcileFinalizer_keeps blocks (applyVerdict b.1 b.2)
+  rw [overlapP_congr (ka.1.trans (applyVerdict_cidr ..)) (kb.1.trans (applyVerdict_cidr ..))]
+  have hta' : (applyVerdict a.1 a.2).allocTrue = true := by unfold Pool.allocTrue at hta ⊢; rw [← ka.2.1]; exact hta
+  have htb' : (applyVerdict b.1 b.2).allocTrue = true := by unfold Pool.allocTrue at htb ⊢; rw [← kb.2.1]; exact htb
+  rw [verdicts_eq_spec hw] at ha hb
+  have va := loopSpec_verdict _ _ a ha
+  have vb := loopSpec_verdict _ _ b hb
+  rcases (applyVerdict_allocTrue ..).1 hta' with ea | ⟨ea, _⟩
+  · rcases (applyVerdict_allocTrue ..).1 htb' with eb | ⟨eb, _⟩
+    · exact hR (Or.inl ea) eb
+    · have := va.1.1; have hb0 := vb.1.1 eb
+      unfold overlapP; rw [hb0]; cases a.1.cidr <;> rfl
+  · have ha0 := va.1.1 ea
+    unfold overlapP; rw [ha0]
+
 theorem loop_map_fst : ∀ (ps : List Pool) (ts : Tries), (loop ts ps).map (·.1) = ps
   | [], _ => rfl
   | p :: ps, ts => by
@@ -133,11 +186,9 @@ theorem reconcile_origin {blocks : List (Bool × Pfx)} {pools : List Pool} {p' :
   rw [loop_map_fst] at hm
   refine ⟨pv.1, mem_sortPools.1 hm, ?_, ?_⟩
   · subst e; subst e2
-    unfold reconcileFinalizer
-    cases pv.2 <;> (simp only [applyVerdict]; repeat' split) <;> rfl
+    exact (reconcileFinalizer_keeps blocks _).1.trans (applyVerdict_cidr ..)
   · subst e; subst e2
-    unfold reconcileFinalizer
-    cases pv.2 <;> (simp only [applyVerdict]; repeat' split) <;> rfl
+    exact (reconcileFinalizer_keeps blocks _).2.2.1.trans (applyVerdict_name ..)
 
 /-! ### histories -/
 
@@ -173,7 +224,7 @@ theorem step_invariant (s : State) (hw : ∀ p ∈ s.pools, p.WF) (hJ : TrueDisj
     fun l h => ⟨fun p hp => h.1 p (List.mem_filter.1 hp).1, trueDisjoint_gc h.2⟩
   cases e with
   | create n c t =>
-    unfold State.step
+    simp only [State.step]
     split
     · exact ⟨hw, hJ⟩
     · refine ⟨fun p hp => ?_, ?_⟩
@@ -192,7 +243,7 @@ theorem step_invariant (s : State) (hw : ∀ p ∈ s.pools, p.WF) (hJ : TrueDisj
   | setDisabled n b => exact hmap n _ (fun p => ⟨rfl, rfl⟩)
   | delete n => exact hgc _ (hmap n _ (fun p => ⟨rfl, rfl⟩))
   | addBlock b =>
-    unfold State.step
+    simp only [State.step]
     split <;> exact ⟨hw, hJ⟩
   | delBlock b => exact ⟨hw, hJ⟩
   | reconcile =>
